@@ -170,6 +170,8 @@ pub fn schedule_invariance(bound: usize, shard: usize, nshards: usize, acc: &mut
         // search must not be influenced by the moment at which that stale timer fires
         scripts.push(c14::Script { name: format!("stale timer after stop; {} depth {}", fen, d), lines: vec![line(&pos, Guard::Now), line("go movetime 1000", Guard::Now), line("stop", Guard::Now), line("ucinewgame", Guard::Now), line(&pos, Guard::Now), line(&go, Guard::Now), line("wait", Guard::Now), line("quit", Guard::WhenAnswered)] });
         scripts.push(c14::Script { name: format!("stale timer after wait; {} depth {}", fen, d), lines: vec![line(&pos, Guard::Now), line("go movetime 1000 depth 1", Guard::Now), line("wait", Guard::Now), line("ucinewgame", Guard::Now), line(&pos, Guard::Now), line(&go, Guard::Now), line("wait", Guard::Now), line("quit", Guard::WhenAnswered)] });
+        // ucinewgame arriving while an unlimited search is in flight and has already filled the table
+        scripts.push(c14::Script { name: format!("stale table: ucinewgame during go infinite; {} depth {}", fen, d), lines: vec![line(&pos, Guard::Now), line("go infinite", Guard::Now), line("ucinewgame", Guard::AfterInfoLines(2)), line(&pos, Guard::Now), line(&go, Guard::Now), line("wait", Guard::Now), line("quit", Guard::WhenAnswered)] });
         scripts.push(c14::Script { name: format!("stale timer after ucinewgame mid-search; {} depth {}", fen, d), lines: vec![line(&pos, Guard::Now), line("go wtime 60000 btime 60000 winc 0 binc 0", Guard::Now), line("ucinewgame", Guard::Now), line(&pos, Guard::Now), line(&go, Guard::Now), line("wait", Guard::Now), line("quit", Guard::WhenAnswered)] });
     }
     for (k, s) in scripts.into_iter().enumerate() {
@@ -178,7 +180,20 @@ pub fn schedule_invariance(bound: usize, shard: usize, nshards: usize, acc: &mut
         }
         // the measured search is the LAST search of the script: compare the lines of the last search thread only
         let measured_only = s.name.starts_with("stale");
-        let reference: std::sync::Mutex<Option<Vec<String>>> = std::sync::Mutex::new(None);
+        let s = &s;
+        // the reference is the fresh engine: the default schedule of `position; go depth d; wait; quit`
+        let fresh: Option<Vec<String>> = {
+            let goline = s.lines.iter().rev().find(|l| l.text.starts_with("go depth")).map(|l| l.text.clone()).unwrap_or_default();
+            let posline = s.lines.iter().rev().find(|l| l.text.starts_with("position")).map(|l| l.text.clone()).unwrap_or_default();
+            let plain = vec![line(&posline, Guard::Now), line(&goline, Guard::Now), line("wait", Guard::Now), line("quit", Guard::WhenAnswered)];
+            let e = sched::run(&plain, &[], c14::HORIZON);
+            if e.verdict.is_none() && e.main_ok {
+                Some(e.log.iter().filter_map(|ev| if let Ev::Out(t, l) = ev { if *t != 0 { Some(l.clone()) } else { None } } else { None }).collect())
+            } else {
+                None
+            }
+        };
+        let reference: std::sync::Mutex<Option<Vec<String>>> = std::sync::Mutex::new(fresh);
         let oracle = |e: &sched::Exec| -> Option<String> {
             if let Some(v) = c14::oracle(e) {
                 return Some(v);
@@ -193,10 +208,10 @@ pub fn schedule_invariance(bound: usize, shard: usize, nshards: usize, acc: &mut
                     None
                 }
                 Some(first) if *first == lines => None,
-                Some(first) => Some(format!("the search prints {:?} under this schedule but {:?} under the default schedule", lines, first)),
+                Some(first) => Some(format!("the search prints {:?} under this schedule but {:?} on a fresh engine", lines, first)),
             }
         };
-        c14::explore_script(&s, bound, &oracle, "c19-e5", acc);
+        c14::explore_script(s, bound, &oracle, "c19-e5", acc);
     }
 }
 
@@ -227,7 +242,7 @@ pub fn run(tier: &str, seed: i64) -> Outcome {
     reports.push(SpaceReport { name: "(c) all fresh-engine sessions once more in a second process (different address-space layout and allocator state)".into(), states: 1, exhaustive: true, note: format!("digest {} [{:.1}s]", mine, t1.elapsed().as_secs_f64()) });
     // (b)
     let t2 = std::time::Instant::now();
-    let nsh = 12;
+    let nsh = 15;
     let args: Vec<Vec<String>> = (0..nsh).map(|i| vec!["C19".to_string(), tier.to_string(), "0".to_string(), "--worker".to_string(), format!("--shard={}/{}", i, nsh)]).collect();
     let a5 = run_workers(&self_exe(), args, nsh);
     reports.push(SpaceReport { name: format!("(b) E5: `position; go depth d; isready; wait; quit` and three stale-timer histories on 3 roots, all interleavings with deviation cost <= {}", if q { 2 } else { 3 }), states: a5.states, exhaustive: true, note: format!("[{:.1}s]", t2.elapsed().as_secs_f64()) });
